@@ -2,6 +2,7 @@
    Plain Coq stdlib only; every function is total and computes with vm_compute. *)
 From Coq Require Export List NArith ZArith Bool Lia.
 From Coq Require String Ascii.
+Export String.StringSyntax Ascii.AsciiSyntax.
 Export ListNotations.
 Open Scope N_scope.
 
